@@ -864,6 +864,9 @@ void response::make_error_response_html_body(int stat,std::ostream &out,std::str
 void response::make_error_response(int stat,std::string const &msg)
 {
 	status(stat);
+	// what the failed handler said about the body it was going to send does not hold for this page
+	erase_header("Content-Length");
+	erase_header("Content-Encoding");
 	make_error_response_html_body(stat,out(),msg);
 }
 
